@@ -6,16 +6,18 @@ Variable digest : Type.
 Variable H : list byte -> digest.
 Variable deq : digest -> digest -> bool.
 Hypothesis deq_spec : forall a b, deq a b = true <-> a = b.
-Variable decode decode1 : list byte -> option (list byte).
+Variable decode : list (list byte) -> option (list byte).
+Variable decode1 : list byte -> option (list byte).
 
 Notation recv_v2 := (recv_v2 digest H deq decode).
 Notation recv_v1 := (recv_v1 digest H deq decode1).
 
 (* the frames and digest line the receiver consumed *)
-Fixpoint frames_of (ls : list (line digest)) : list byte :=
+Fixpoint frames_of (ls : list (line digest)) : list (list byte) :=
   match ls with
   | LData _ [] :: _ => []
-  | LData _ f :: rest => f ++ frames_of rest
+  | LData _ f :: rest => f :: frames_of rest
+  | LKeep _ :: rest => frames_of rest
   | _ => []
   end.
 
@@ -23,6 +25,7 @@ Fixpoint md5_of (ls : list (line digest)) : option digest :=
   match ls with
   | LData _ [] :: LMd5 _ d :: _ => Some d
   | LData _ (_ :: _) :: rest => md5_of rest
+  | LKeep _ :: rest => md5_of rest
   | _ => None
   end.
 
@@ -31,16 +34,17 @@ Lemma recv_v2_sound : forall ls size acc w,
   decode (acc ++ frames_of ls) = Some w /\ Z.of_nat (length w) = size /\ md5_of ls = Some (H w).
 Proof.
   induction ls as [|l ls IH]; intros size acc w A; cbn [Protocol.recv_v2] in A; [discriminate|].
-  destruct l as [f|d|]; try discriminate.
-  destruct f as [|b f].
-  - destruct (decode acc) as [w'|] eqn:D; [|discriminate].
-    destruct (Z.of_nat (length w') =? size)%Z eqn:S; [|discriminate].
-    destruct ls as [|[f2|d2|] rest]; try discriminate.
-    destruct (deq d2 (H w')) eqn:Q; [|discriminate].
-    injection A as <-. apply deq_spec in Q. apply Z.eqb_eq in S.
-    cbn [frames_of md5_of]. rewrite app_nil_r. subst d2. auto.
-  - specialize (IH size (acc ++ b :: f) w A). cbn [frames_of md5_of].
-    rewrite <- app_assoc in IH. exact IH.
+  destruct l as [f|d| |]; try discriminate.
+  - destruct f as [|b f].
+    + destruct (decode acc) as [w'|] eqn:D; [|discriminate].
+      destruct (Z.of_nat (length w') =? size)%Z eqn:S; [|discriminate].
+      destruct ls as [|[f2|d2| |] rest]; try discriminate.
+      destruct (deq d2 (H w')) eqn:Q; [|discriminate].
+      injection A as <-. apply deq_spec in Q. apply Z.eqb_eq in S.
+      cbn [frames_of md5_of]. rewrite app_nil_r. subst d2. auto.
+    + specialize (IH size (acc ++ [b :: f]) w A). cbn [frames_of md5_of].
+      rewrite <- app_assoc in IH. exact IH.
+  - cbn [frames_of md5_of]. exact (IH size acc w A).
 Qed.
 
 (* protocol 1: what was written is the concatenation of the decoded frames consumed, and
@@ -52,18 +56,18 @@ Lemma recv_v1_sound : forall fuel ls size w0 w,
 Proof.
   induction fuel as [|fuel IH]; intros ls size w0 w A; cbn [Protocol.recv_v1] in A.
   - destruct (Z.of_nat (length w0) <? size)%Z eqn:L; [discriminate|].
-    destruct ls as [|[f|d|] rest]; try discriminate.
+    destruct ls as [|[f|d| |] rest]; try discriminate.
     destruct (deq d (H w0)) eqn:Q; [|discriminate]. injection A as <-.
     apply deq_spec in Q. apply Z.ltb_ge in L. exists d. repeat split; auto.
     + left; reflexivity.
     + exists []. rewrite app_nil_r. reflexivity.
   - destruct (Z.of_nat (length w0) <? size)%Z eqn:L.
-    + destruct ls as [|[f|d|] rest]; try discriminate.
+    + destruct ls as [|[f|d| |] rest]; try discriminate.
       destruct (decode1 f) as [dd|]; [|discriminate].
       destruct (IH rest size (w0 ++ dd) w A) as (d & I & E & Sz & tail & T).
       exists d. repeat split; auto. { right; exact I. }
       exists (dd ++ tail). rewrite T, app_assoc. reflexivity.
-    + destruct ls as [|[f|d|] rest]; try discriminate.
+    + destruct ls as [|[f|d| |] rest]; try discriminate.
       destruct (deq d (H w0)) eqn:Q; [|discriminate]. injection A as <-.
       apply deq_spec in Q. apply Z.ltb_ge in L. exists d. repeat split; auto.
       * left; reflexivity.
